@@ -398,6 +398,27 @@ def plan_index(ctx, shape, idx):
                     out_src.append(('adv', j))
                 placed_adv = True
     nb = len(shape)
+    # safety of gathers: checked once, at a fresh position inside the index array (not at every read)
+    for k_ in adv:
+        a_ = items[k_][1]
+        bd_ = items[k_][2]
+        if isinstance(a_, LArr) and not a_.meta.get('bounds_checked_for') == id(shape):
+            pos = tuple(ctx.fresh('gpos', 'int') for _ in a_.shape)
+            rng = [z3.And(V.zint(p_) >= 0, V.zint(p_) < V.zint(d_)) for p_, d_ in zip(pos, a_.shape)]
+            v_ = a_.at(*pos)
+            n_ = shape[bd_]
+            ok_ = V.and_(V.cmp('>=', v_, V.neg(n_)), V.cmp('<', v_, n_))
+            if ok_ is not True and ctx.safety_on:
+                if getattr(ctx, 'gather_hints', None):
+                    for r_ in rng:
+                        ctx.assume(r_)
+                    ctx.gather_hints(ctx, a_, pos)
+                ctx.prove(f'safety.index_in_bounds@L{ctx.cur_line}', z3.Implies(z3.And(*rng) if rng else z3.BoolVal(True), V.zbool(ok_)), kind='safety')
+                if getattr(ctx, 'assume_gather_bounds', False):
+                    q_ = [z3.Int(f'gq{j_}!{next(ctx.fresh_ctr)}') for j_ in range(len(a_.shape))]
+                    vq_ = a_.at(*q_)
+                    ctx.hyps.append(z3.ForAll(q_, z3.Implies(z3.And(*[z3.And(x_ >= 0, x_ < V.zint(d_)) for x_, d_ in zip(q_, a_.shape)]),
+                                                              z3.And(V.zint(vq_) >= -V.zint(n_), V.zint(vq_) < V.zint(n_)))))
 
     def fwd(o):
         base = [None] * nb
@@ -414,7 +435,6 @@ def plan_index(ctx, shape, idx):
                 v = (to_larr(a) if not isinstance(a, LArr) else a).at(*bidx(a.shape, advo))
                 n = shape[bd]
                 if is_sym(v) or is_sym(n):
-                    ctx.safety('index_in_bounds', V.and_(V.cmp('>=', v, V.neg(n)), V.cmp('<', v, n)))
                     v = V.simp(V.ite(V.cmp('<', v, 0), V.add(v, n), v)) if is_sym(v) else (v if v >= 0 else V.add(v, n))
                 else:
                     if not -n <= v < n:
@@ -578,6 +598,7 @@ def arr_getitem(ctx, a, idx):
     r = LArr(plan.out_shape, None, a.kind)
     if plan.is_view:
         r.view_of = (a, plan.fwd)
+        r.meta['view_bwd'] = plan.bwd
         r.elem = lambda o, a=a, f=plan.fwd: a.at(*f(o))
         if a.inv is not None and a.ndim == 1 and len(plan.out_shape) == 1:
             # a basic slice of an injective index array stays injective: ghost inverse shifted by the slice start
@@ -612,6 +633,34 @@ def root_of(a):
         r, m = root_of(base)
         return r, (lambda o, imap=imap, m=m: m(imap(o)))
     return a, (lambda o: o)
+
+
+def store_fn(ctx, a, hit):
+    """write into array a: hit(index of a) -> (condition, new value); goes through views down to the root storage"""
+    if a.view_of is not None:
+        base, imap = a.view_of
+        bwd = a.meta.get('view_bwd')
+        if bwd is None:
+            raise Unsupported('store through a view without inverse map (transpose/reshape view)')
+
+        def hit_base(b, bwd=bwd, hit=hit):
+            c1, o1 = bwd(b)
+            if c1 is False:
+                return False, None
+            c2, v = hit(o1)
+            return V.and_(c1, c2), v
+        return store_fn(ctx, base, hit_base)
+    old = a.elem
+
+    def new(i, old=old, hit=hit):
+        c, v = hit(i)
+        if c is False:
+            return old(i)
+        if c is True:
+            return v
+        return V.ite(c, v, old(i))
+    a.elem = new
+    a.inv = None
 
 
 def kind_check_store(ctx, target_kind, vkind):
@@ -675,9 +724,17 @@ def arr_setitem(ctx, a, idx, v, aug=False):
     if isinstance(val, LArr):
         bshape(plan.out_shape, val.shape, ctx)
         val = snapshot(val)
-    root, rmap = root_of(a)
     if a.view_of is not None:
-        raise Unsupported('store through a view of a view (not needed so far)')
+        vk = val.kind if isinstance(val, LArr) else V.kind(val)
+        kind_check_store(ctx, a.kind, vk)
+
+        def hit_view(i, plan=plan, val=val):
+            cond, o = plan.bwd(i)
+            if cond is False:
+                return False, None
+            return cond, (val.at(*bidx(val.shape, o)) if isinstance(val, LArr) else val)
+        store_fn(ctx, a, hit_view)
+        return
     old = a.elem
     try:
         plan.bwd(tuple(z3.Int(f'probe!{k}') for k in range(a.ndim)))
@@ -735,8 +792,8 @@ def assign_inplace(ctx, cur, new):
     else:
         f = lambda i, new=new: new
     if cur.view_of is not None:
-        base, imap = cur.view_of
-        raise Unsupported('in-place operator through a symbolic view')
+        store_fn(ctx, cur, lambda i, f=f: (True, f(i)))
+        return cur
     cur.elem = f
     cur.inv = None
     return cur
